@@ -212,6 +212,48 @@ def s_server_connect(vc):
     vc.ensure("frame.address", vc.eq(server.address, (ch, cp)))
 
 
+# ---------------------------------------------------------------------------------------------
+# The guard compares against `server.listen_addrs`: every socket a server instance listens on must be reported there
+# (the documented listen_port=0 fallback binds IPv4 and IPv6 wildcard sockets to *different* ports).
+
+class Sock23:
+    def getsockname(self):
+        return self.name
+
+
+class Srv23:
+    """asyncio.Server stand-in: .sockets"""
+
+
+LA = "mitmproxy.proxy.mode_servers:RegularInstance"
+
+
+@scenario("listen_addrs.reports_every_socket", functions=["mitmproxy.proxy.mode_servers:AsyncioServerInstance.listen_addrs"])
+def s_listen_addrs(vc):
+    shape = vc.case("sockets_per_server", [[1], [2], [3], [1, 1], [2, 1], []])
+    fixed = vc.case("hosts", ["symbolic", "dual_stack_wildcards"])
+    names, servers, k = [], [], 0
+    for i, n in enumerate(shape):
+        socks = []
+        for j in range(n):
+            host = vc.sym_str(f"host{k}") if fixed == "symbolic" else ("0.0.0.0" if j % 2 == 0 else "::")
+            port = vc.sym_int(f"port{k}", lo=0, hi=65535)
+            name = (host, port) if j % 2 == 0 else (host, port, 0, 0)
+            names.append(name)
+            socks.append(vc.new("props.C23:Sock23", name=name))
+            k += 1
+        servers.append(vc.new("props.C23:Srv23", sockets=vc.list(socks)))
+    inst = vc.new(LA, _servers=vc.list(servers))
+    try:
+        r = vc.getattr(inst, "listen_addrs")
+    except Exception as e:
+        if type(e).__name__ in ("PathEnd", "Unsupported", "NativeStop"):
+            raise
+        vc.ensure("total", False)
+        return
+    vc.ensure("every_socket_reported_once_in_order", vc.eq(r, tuple(names)))
+
+
 def _truthy_str(vc, v):
     if vc.mode == "native":
         return isinstance(v, str) and len(v) > 0
@@ -313,6 +355,27 @@ def bounded(tier, seed):
             maybe = any(cp == a[1] and (_lt(s) in (ct, "both")) and (ch == a[0] or _spec_own(ch, cp, ct, "127.0.0.1", cp, ct)) for s, addrs in cfg for a in addrs)
             if not maybe and err:
                 b.fail("server_connect.not_own_untouched", inp, f"error set for a destination that is not ours: {err!r}")
+    # the real listen_addrs feeding the guard: dual-stack wildcard sockets on the same and on different ports (listen_port=0 fallback)
+    from mitmproxy.proxy import mode_servers, mode_specs, server_hooks
+    from mitmproxy import connection
+    for p4, p6 in ((8080, 8080), (40001, 40002)):
+        for ch, cport in itertools.product(["127.0.0.1", "::1", "localhost", "0.0.0.0", "::"], sorted({p4, p6})):
+            inst = mode_servers.RegularInstance.__new__(mode_servers.RegularInstance)
+            inst.mode = mode_specs.ProxyMode.parse("regular")
+            srv = Srv23()
+            s4, s6 = Sock23(), Sock23()
+            s4.name, s6.name = ("0.0.0.0", p4), ("::", p6, 0, 0)
+            srv.sockets = [s4, s6]
+            inst._servers = [srv]
+            ps = proxyserver_new([inst])
+            sv = connection.Server(address=(ch, cport), transport_protocol="tcp")
+            cl = connection.Client(peername=("127.0.0.1", 1), sockname=("127.0.0.1", 2), timestamp_start=0)
+            b.case(("real-listen_addrs", p4, p6, ch, cport), nontrivial=True)
+            ps.server_connect(server_hooks.ServerConnectionHookData(server=sv, client=cl))
+            if not sv.error:
+                b.fail("server_connect.own_socket_refused", {"sockets": [list(s4.name), list(s6.name)], "connect": [ch, cport]}, "a listening socket of the instance is not refused (listen_addrs / guard)")
+            if len(inst.listen_addrs) != 2:
+                b.fail("listen_addrs.reports_every_socket", {"sockets": [list(s4.name), list(s6.name)]}, repr(inst.listen_addrs))
     # _denotes_local itself on the spelling list (+ near misses)
     from mitmproxy.addons import proxyserver
     for h in SPELLINGS + ["localhost..", ".localhost", "localhost.x", "local host", "127.0.0.1.", "::ffff:128.0.0.1", "::ffff:0.0.0.0", "::ffff:0:0", "0", "0x7f.1", "::1%lo", "", "LOCALHOST "]:
@@ -325,6 +388,16 @@ def bounded(tier, seed):
         if got != _spec_local(h):
             b.fail("denotes_local.matches_statement_spellings", {"host": h}, f"expected {_spec_local(h)}, got {got}")
     return b
+
+
+def proxyserver_new(instances):
+    from mitmproxy.addons import proxyserver
+    ps = proxyserver.Proxyserver.__new__(proxyserver.Proxyserver)
+    srv = proxyserver.Servers.__new__(proxyserver.Servers)
+    srv._instances = dict(enumerate(instances))
+    ps.servers = srv
+    ps._connect_addr = None
+    return ps
 
 
 def _lt(spec):
